@@ -47,11 +47,11 @@ func init() {
 			}
 			return []runner.Phase{
 				{Name: "tls-table", Variant: "race", Cases: c20tlsCases(), Run: c20tlsCase, CaseTimeout: 120 * time.Second,
-					Required: []string{"tls_sessions", "verify_expected", "no_verify_expected", "handshakes_completed", "handshakes_rejected_by_client", "caller_config_compared", "per_node_names", "client_cert_presented", "two_contact_points"}},
+					Required: []string{"tls_sessions", "verify_expected", "no_verify_expected", "handshakes_completed", "handshakes_rejected_by_client", "caller_config_compared", "per_node_names", "client_cert_presented", "two_contact_points", "ssl_options_reused_after_change", "caller_rootcas_plus_ca_path"}},
 				{Name: "bad-files", Variant: "race", Cases: 6 * len(c20badFiles), Run: c20badFileCase, CaseTimeout: 120 * time.Second,
 					Required: []string{"bad_file_cases"}},
 				{Name: "auth", Variant: "race", Cases: na, Run: c20authCase, CaseTimeout: 120 * time.Second,
-					Required: []string{"auth_sessions", "approved_class", "unapproved_class", "no_authenticator_configured", "auth_not_demanded", "tokens_checked"}},
+					Required: []string{"auth_sessions", "approved_class", "unapproved_class", "no_authenticator_configured", "no_authenticator_vs_known_class", "auth_not_demanded", "tokens_checked"}},
 			}
 		},
 	})
@@ -69,6 +69,7 @@ type c20pki struct {
 	dir               string
 	ca1, ca2          *c20ca
 	ca1File           string
+	ca2File           string
 	clientCertFile    string
 	clientKeyFile     string
 	otherKeyFile      string
@@ -146,6 +147,8 @@ func c20getPKI(c *runner.Ctx) (*c20pki, error) {
 		}
 		p.ca1File = filepath.Join(p.dir, "ca1.pem")
 		os.WriteFile(p.ca1File, p.ca1.pem, 0600)
+		p.ca2File = filepath.Join(p.dir, "ca2.pem")
+		os.WriteFile(p.ca2File, p.ca2.pem, 0600)
 		_, cp, kp, err := p.issue(p.ca1, "verif-client", nil, nil, true)
 		if err != nil {
 			c20pkiErr = err
@@ -393,6 +396,13 @@ func c20tlsCase(c *runner.Ctx, i int) {
 	if trust == 1 {
 		opts.CaPath = pki.ca1File
 	}
+	// the caller's Config brings its own RootCAs (CA one) and the options name a CA file as well (CA two): both are
+	// trusted for this cluster - and the caller's own pool is still the caller's
+	bothTrust := trust == 0 && user != nil && runner.H("c20both", i)%3 == 0
+	if bothTrust {
+		opts.CaPath = pki.ca2File
+		c.Add("caller_rootcas_plus_ca_path", 1)
+	}
 	if clientCertConfigured {
 		opts.CertPath, opts.KeyPath = pki.clientCertFile, pki.clientKeyFile
 	}
@@ -407,7 +417,7 @@ func c20tlsCase(c *runner.Ctx, i int) {
 	nodeOK := map[string]bool{}
 	anyContactOK := false
 	for k := range ids {
-		trusted := kindOf[k] != 2 && trust != 2
+		trusted := (kindOf[k] != 2 || bothTrust) && trust != 2
 		nameOK := false
 		if serverName != "" {
 			nameOK = kindOf[k] == 3
@@ -435,6 +445,32 @@ func c20tlsCase(c *runner.Ctx, i int) {
 		c.Add("verify_expected", 1)
 	} else {
 		c.Add("no_verify_expected", 1)
+	}
+	if runner.H("c20reuse", i)%3 == 0 {
+		// the same SslOptions object served an earlier session with the opposite verification setting (one
+		// ClusterConfig, several CreateSession calls, a setting changed in between; the file paths stay)
+		if verify {
+			w := &tls.Config{InsecureSkipVerify: true, ServerName: serverName, MinVersion: tls.VersionTLS12}
+			if user != nil {
+				w.RootCAs = user.RootCAs
+			}
+			opts.Config, opts.EnableHostVerification = w, false
+		} else {
+			opts.EnableHostVerification = true
+		}
+		cfgW := *cfg
+		cfgW.Dialer = &c20dialer{inner: fakenode.Dialer{C: cl}, cfgFor: dl.cfgFor}
+		var sw *gocql.Session
+		c.Guard("CreateSession", func() { sw, _ = cfgW.CreateSession() })
+		if sw != nil {
+			c.Guard("Session.Close", sw.Close)
+		}
+		opts.Config, opts.EnableHostVerification = user, ehv
+		if user == nil {
+			opts.Config = nil
+		}
+		key += " [SslOptions used before with the opposite verification setting]"
+		c.Add("ssl_options_reused_after_change", 1)
 	}
 	var sess *gocql.Session
 	c.Guard("CreateSession", func() { sess, err = cfg.CreateSession() })
@@ -722,7 +758,16 @@ func c20authCase(c *runner.Ctx, i int) {
 	if r.Intn(12) == 0 {
 		pass = ""
 	}
-	authKind := r.Intn(4) // 0 none, 1 Authenticator, 2 AuthProvider, 3 Authenticator
+	authKind := r.Intn(4) // 0 none, 1 Authenticator, 2 AuthProvider, 3 Authenticator, 4 AuthProvider returning no authenticator
+	if authKind == 0 && r.Intn(2) == 0 {
+		// a client without credentials against every class a server is known to name, spelled exactly
+		class, demanded = c20defaultApproved[(i/4)%len(c20defaultApproved)], true
+		c.Add("no_authenticator_vs_known_class", 1)
+		c.SetAdd("classes_demanded_from_a_client_without_credentials", class)
+		if r.Intn(3) == 0 {
+			authKind = 4
+		}
+	}
 	cl := fakenode.NewCluster(1 + r.Intn(2))
 	for _, n := range cl.Nodes {
 		n := n
@@ -743,8 +788,10 @@ func c20authCase(c *runner.Ctx, i int) {
 		cfg.Authenticator = pa
 	case 2:
 		cfg.AuthProvider = func(h *gocql.HostInfo) (gocql.Authenticator, error) { return pa, nil }
+	case 4:
+		cfg.AuthProvider = func(h *gocql.HostInfo) (gocql.Authenticator, error) { return nil, nil }
 	}
-	key := fmt.Sprintf("v%d class=%q demanded=%v allowed=%q authenticator=%s user=%q", version, class, demanded, allowed, []string{"none", "PasswordAuthenticator", "AuthProvider", "PasswordAuthenticator"}[authKind], clipS(user))
+	key := fmt.Sprintf("v%d class=%q demanded=%v allowed=%q authenticator=%s user=%q", version, class, demanded, allowed, []string{"none", "PasswordAuthenticator", "AuthProvider", "PasswordAuthenticator", "AuthProvider returning nil"}[authKind], clipS(user))
 	c.Eval(runner.H("c20auth", version, listKind, class, demanded, authKind), demanded)
 	c.Add("auth_sessions", 1)
 	var sess *gocql.Session
@@ -782,7 +829,7 @@ func c20authCase(c *runner.Ctx, i int) {
 		if sess == nil {
 			c.Violation("C20:auth:session-refused", fmt.Sprintf("session creation failed against a server without authentication: %v (%s)", err, key), wit)
 		}
-	case authKind == 0:
+	case authKind == 0 || authKind == 4:
 		c.Add("no_authenticator_configured", 1)
 		if sess != nil {
 			c.Violation("C20:auth:unauthenticated-session", "a session was created although the server demands authentication and no credentials are configured ("+key+")", wit)
